@@ -19,13 +19,17 @@ impl Instruction {
         if self.arguments.len() >= 1 {
             for arg in &self.arguments[..] {
                 args.push(' ');
-                if arg.contains(' ') {
-                    args.push('\"');
-                    args.push_str(arg);
-                    args.push('\"');
-                } else {
-                    args.push_str(arg);
-                }
+                // always quote and escape, exactly like the compiler's own writer: the
+                // argument was decoded by `split_string` and must be read back unchanged.
+                args.push('\"');
+                args.push_str(
+                    &arg.replace('\\', "\\\\")
+                        .replace('"', "\\\"")
+                        .replace('\n', "\\n")
+                        .replace('\r', "\\r")
+                        .replace('\t', "\\t"),
+                );
+                args.push('\"');
             }
         }
 
